@@ -223,17 +223,26 @@ fn copy_dir(from: &Path, to: &Path) {
     }
 }
 
-fn observe(m: &RocksDBWithMerkleTreeSubstateStore) -> (u64, [u8; 32], Vec<(u8, u8, u8, i64)>) {
+fn observe(m: &RocksDBWithMerkleTreeSubstateStore) -> (u64, [u8; 32], Vec<(u8, u8, u8, i64)>, bool) {
     let mut leaves = vec![];
+    let mut held: BTreeSet<(u8, u8, u8, [u8; 32])> = BTreeSet::new();
     let parts: Vec<DbPartitionKey> = m.list_partition_keys().collect();
     for pk in parts {
         for (sk, v) in m.list_raw_values_from_db_key(&pk, None) {
             let vi = if !v.is_empty() && v.len() == v[0] as usize + 2 && v.iter().all(|x| *x == v[0]) { v[0] as i64 } else { -9 };
             leaves.push((pk.node_key.get(0).cloned().unwrap_or(0), pk.partition_num, sk.0.get(0).cloned().unwrap_or(0), vi));
+            held.insert((pk.node_key.get(0).cloned().unwrap_or(0), pk.partition_num, sk.0.get(0).cloned().unwrap_or(0), b2(&v)));
         }
     }
     leaves.sort();
-    (m.get_current_version(), m.get_current_root_hash().0, leaves)
+    // walk the stored tree of the recorded version from its root with the code's own reader
+    let ver = m.get_current_version();
+    let tree_ok = if ver == 0 {
+        held.is_empty()
+    } else {
+        matches!(catch(|| listed_hashes(list_substate_hashes_at_version(m, ver))), Ok(l) if l == held)
+    };
+    (ver, m.get_current_root_hash().0, leaves, tree_ok)
 }
 
 /// For every commit of every behaviour and every write operation w of that commit: stop right
@@ -304,7 +313,7 @@ fn crash(args: &Args) {
                 CRASH_COUNTDOWN.store(-1, Ordering::SeqCst);
                 drop(m);
                 let m = RocksDBWithMerkleTreeSubstateStore::standard(tmp.clone());
-                let (ver, root, leaves) = observe(&m);
+                let (ver, root, leaves, tree_ok) = observe(&m);
                 drop(m);
                 let root_is = match (root == pre_root, root == post_root) {
                     (true, true) => "both",
@@ -313,7 +322,7 @@ fn crash(args: &Args) {
                     _ => "none",
                 };
                 out.emit(&json!({"a": "crash", "step": si, "w": w, "of": w_total, "crashed": r.is_err(),
-                    "upd": uj, "version": ver, "rootIs": root_is,
+                    "upd": uj, "version": ver, "rootIs": root_is, "treeOk": tree_ok,
                     "leaves": leaves.iter().map(|l| json!([l.0, l.1, l.2, l.3])).collect::<Vec<_>>(),
                     "ops": log}));
             }
